@@ -421,6 +421,9 @@ func (in *inst) opMerge(v string) (bool, error) {
 		return false, nil
 	}
 	bodies := in.pickBodies(sc, 2+in.r.Intn(3))
+	if len(in.forced) >= 2 {
+		bodies, in.forced = in.forced, nil
+	}
 	target, merged := bodies[0], bodies[1:]
 	in.log("merge@%s %d<-%v", in.short(v), target, merged)
 	r, err := in.w.Post(in.url(v, "merge"), lmwire.JSONU64s(append([]uint64{target}, merged...)))
@@ -457,6 +460,10 @@ func (in *inst) opCleave(v string) (bool, error) {
 	in.r.Shuffle(len(svs), func(i, j int) { svs[i], svs[j] = svs[j], svs[i] })
 	k := 1 + in.r.Intn(len(svs)-1)
 	cl := svs[:k]
+	if len(in.forced) >= 2 { // body, supervoxels to cleave
+		body, cl, in.forced = in.forced[0], in.forced[1:], nil
+		svs = sortedKeysInt(sc.BodySVs[body])
+	}
 	in.log("cleave@%s body=%d svs=%v", in.short(v), body, cl)
 	r, err := in.w.Post(in.url(v, fmt.Sprintf("cleave/%d", body)), lmwire.JSONU64s(cl))
 	if err != nil {
@@ -495,6 +502,9 @@ func (in *inst) opRenumber(v string) (bool, error) {
 		n = 2
 	}
 	olds := in.pickBodies(sc, n)
+	if len(in.forced) >= 1 {
+		olds, in.forced = in.forced, nil
+	}
 	var pairs []uint64
 	var news []uint64
 	for _, o := range olds {
